@@ -38,21 +38,31 @@ impl Atom {
     }
     /// endpoint spelling: 0 literal, 1 value reference, 2 named number
     fn text(&self, sp: u8, names: &mut Vec<(String, i128)>, serial: &mut u32) -> String {
-        let mut e = |v: i128| -> String {
-            match sp {
-                0 => v.to_string(),
-                _ => {
-                    *serial += 1;
-                    let n = if sp == 1 { format!("vq{}", *serial) } else { format!("nq{}", *serial) };
-                    names.push((n.clone(), v));
-                    n
-                }
+        // role: 0 single value, 1 lower endpoint, 2 upper endpoint; spelling 3 / 4: only the lower / only the upper endpoints
+        // of ranges are value references, everything else is a literal
+        let mut er = |v: i128, role: u8| -> String {
+            let literal = sp == 0 || (sp == 3 && role != 1) || (sp == 4 && role != 2);
+            if literal {
+                v.to_string()
+            } else {
+                *serial += 1;
+                let n = if sp == 2 { format!("nq{}", *serial) } else { format!("vq{}", *serial) };
+                names.push((n.clone(), v));
+                n
             }
         };
         match self {
-            Atom::Single(v) => e(*v),
-            Atom::Range(l, h) => format!("{}..{}", l.map_or("MIN".to_string(), &mut e), h.map_or("MAX".to_string(), &mut e)),
-            Atom::Open(l, h, lo, ho) => format!("{}{}..{}{}", e(*l), if *lo { "<" } else { "" }, if *ho { "<" } else { "" }, e(*h)),
+            Atom::Single(v) => er(*v, 0),
+            Atom::Range(l, h) => {
+                let lo = l.map_or("MIN".to_string(), |v| er(v, 1));
+                let hi = h.map_or("MAX".to_string(), |v| er(v, 2));
+                format!("{lo}..{hi}")
+            }
+            Atom::Open(l, h, lo, ho) => {
+                let a = er(*l, 1);
+                let b = er(*h, 2);
+                format!("{a}{}..{}{b}", if *lo { "<" } else { "" }, if *ho { "<" } else { "" })
+            }
             Atom::Contained(l, h, kw) => {
                 *serial += 1;
                 let n = format!("Tc{}", *serial);
@@ -176,9 +186,9 @@ pub struct Case {
     /// constraint of the parent type in contexts 15, 16, 19
     pub parent: Option<Atom>,
 }
-pub const CTX_NAMES: [&str; 28] = [
+pub const CTX_NAMES: [&str; 31] = [
     "INTEGER-assignment", "INTEGER-component", "constrained-reference-assignment", "constrained-reference-component", "value-reference-endpoints", "named-number-endpoints",
-    "OCTET-STRING-SIZE-assignment", "BIT-STRING-SIZE-component", "IA5String-SIZE-assignment", "SEQUENCE-OF-SIZE-assignment", "SET-OF-SIZE-component", "BMPString-SIZE-component", "named-numbers-of-referenced-type", "INTEGER-object-set-alternative", "OCTET-STRING-SIZE-object-set-alternative", "constrained-parent-assignment", "constrained-parent-component", "OCTET-STRING-SIZE-per-operand-assignment", "IA5String-SIZE-per-operand-component", "constrained-parent-SIZE-assignment", "OCTET-STRING-SIZE-value-reference-endpoints", "BIT-STRING-SIZE-component-value-reference-endpoints", "SEQUENCE-OF-SIZE-value-reference-endpoints", "string-SIZE-component-value-reference-endpoints", "SEQUENCE-OF-element-reference-assignment", "SET-OF-element-reference-component", "named-numbers-of-referenced-type-component", "named-numbers-of-inline-type-component-with-homonym",
+    "OCTET-STRING-SIZE-assignment", "BIT-STRING-SIZE-component", "IA5String-SIZE-assignment", "SEQUENCE-OF-SIZE-assignment", "SET-OF-SIZE-component", "BMPString-SIZE-component", "named-numbers-of-referenced-type", "INTEGER-object-set-alternative", "OCTET-STRING-SIZE-object-set-alternative", "constrained-parent-assignment", "constrained-parent-component", "OCTET-STRING-SIZE-per-operand-assignment", "IA5String-SIZE-per-operand-component", "constrained-parent-SIZE-assignment", "OCTET-STRING-SIZE-value-reference-endpoints", "BIT-STRING-SIZE-component-value-reference-endpoints", "SEQUENCE-OF-SIZE-value-reference-endpoints", "string-SIZE-component-value-reference-endpoints", "SEQUENCE-OF-element-reference-assignment", "SET-OF-element-reference-component", "named-numbers-of-referenced-type-component", "named-numbers-of-inline-type-component-with-homonym", "value-reference-as-lower-endpoint-only-assignment", "value-reference-as-lower-endpoint-only-component", "value-reference-as-upper-endpoint-only-assignment",
 ];
 impl Case {
     fn is_size(&self) -> bool {
@@ -211,6 +221,8 @@ impl Case {
         let sp = match self.ctx {
             4 | 20..=23 => 1,
             5 | 12 | 26 | 27 => 2,
+            28 | 29 => 3,
+            30 => 4,
             _ => 0,
         };
         let mut names = vec![];
@@ -225,7 +237,7 @@ impl Case {
         for d in defs.chunks(2) {
             src.push_str(&format!("{} ::= INTEGER ({}..{})\n", &d[0].0[1..], d[0].1, d[1].1));
         }
-        if sp == 1 {
+        if matches!(sp, 1 | 3 | 4) {
             for (nm, v) in &names {
                 src.push_str(&format!("{nm} INTEGER ::= {v}\n"));
             }
@@ -241,11 +253,11 @@ impl Case {
             }
         }
         match self.ctx {
-            0 => {
+            0 | 28 | 30 => {
                 src.push_str(&format!("Tq{n} ::= INTEGER {c}\n"));
                 (format!("Tq{n}"), None)
             }
-            1 => {
+            1 | 29 => {
                 src.push_str(&format!("Tq{n} ::= SEQUENCE {{ fq1 INTEGER {c} }}\n"));
                 (format!("Tq{n}"), Some("fq1".into()))
             }
@@ -627,8 +639,8 @@ fn check_batch(cases: &[Case], rep: &mut Report) {
         }
         for (kind, detail) in verdicts {
             let ctxc = match c.ctx {
-                0 | 4 | 5 => "assignment",
-                1 | 27 => "component",
+                0 | 4 | 5 | 28 | 30 => "assignment",
+                1 | 27 | 29 => "component",
                 2 | 3 | 12 | 15 | 16 | 19 | 26 => "constrained-reference",
                 24 | 25 => "collection-element",
                 13 | 14 => "object-set-alternative",
@@ -882,9 +894,12 @@ pub fn run(ctx: &Ctx) -> Report {
     let nrand = ctx.pick(40_000u64, 800_000);
     for i in 0..nrand {
         let mut rng = Rng::for_case(ctx.seed, 4, i);
-        let c = match rng.below(15) {
+        let c = match rng.below(18) {
             13 => 26,
             14 => 27,
+            15 => 28,
+            16 => 29,
+            17 => 30,
             x => x,
         } as u8;
         let pool = if (6..=11).contains(&c) { &sat7 } else { &at7 };
